@@ -697,7 +697,7 @@ fn wait_workers(
     deadline: Instant,
 ) -> Result<Vec<(usize, WorkerEnd)>, String> {
     let mut ends = Vec::new();
-    let mut last: BTreeMap<usize, (u64, Instant)> = BTreeMap::new();
+    let mut last: BTreeMap<usize, (u64, Instant, f64)> = BTreeMap::new();
     let mut hbs: BTreeMap<usize, Heartbeat> = BTreeMap::new();
     while !children.is_empty() {
         std::thread::sleep(Duration::from_millis(25));
@@ -734,15 +734,20 @@ fn wait_workers(
                         }
                     }
                     let cur = hbs.get(&shard).map(|h| h.read()).unwrap_or(0);
-                    let e = last.entry(shard).or_insert((cur, now));
+                    // progress is judged in CPU seconds consumed by the worker, so that a loaded
+                    // machine cannot make a healthy worker look hung
+                    let cpu = cpu_seconds(child.id());
+                    let e = last.entry(shard).or_insert((cur, now, cpu));
                     if e.0 != cur {
-                        *e = (cur, now);
+                        *e = (cur, now, cpu);
                     }
-                    if now.duration_since(e.1).as_secs() >= timeout_s {
+                    let stuck_cpu = cpu - e.2;
+                    let stuck_wall = now.duration_since(e.1).as_secs();
+                    if stuck_cpu >= timeout_s as f64 {
                         let _ = child.kill();
                         let _ = child.wait();
                         ends.push((shard, WorkerEnd::Hung));
-                    } else if now > deadline {
+                    } else if now > deadline || stuck_wall >= timeout_s * 30 {
                         let _ = child.kill();
                         let _ = child.wait();
                         for (_, mut c) in still {
@@ -760,6 +765,19 @@ fn wait_workers(
         children = still;
     }
     Ok(ends)
+}
+
+/// user+system CPU seconds consumed so far by process `pid` (0 if unreadable)
+fn cpu_seconds(pid: u32) -> f64 {
+    let Ok(text) = std::fs::read_to_string(format!("/proc/{}/stat", pid)) else { return 0.0 };
+    // fields after the parenthesised command name
+    let Some(rest) = text.rsplit_once(')').map(|x| x.1) else { return 0.0 };
+    let f: Vec<&str> = rest.split_whitespace().collect();
+    // rest[0] is field 3 (state); utime = field 14, stime = field 15
+    let ut: f64 = f.get(11).and_then(|x| x.parse().ok()).unwrap_or(0.0);
+    let st: f64 = f.get(12).and_then(|x| x.parse().ok()).unwrap_or(0.0);
+    let tck = unsafe { libc::sysconf(libc::_SC_CLK_TCK) } as f64;
+    (ut + st) / if tck > 0.0 { tck } else { 100.0 }
 }
 
 fn write_replay(id: &str, r: &ReplayFile) -> PathBuf {
